@@ -952,8 +952,186 @@ def plan_c18(prop, tier, seed, t0):
     return 0
 
 
+def flow_module(work, name, waiters, scripts):
+    mod = "MCF_" + name
+    def rec(o):
+        return '[op |-> "%s", b |-> %d, m |-> %d]' % (o["op"], o["b"], o["m"])
+    arms = " [] ".join('m = "%s" -> <<%s>>' % (m, ", ".join(rec(o) for o in ops)) for m, ops in scripts.items())
+    with open(os.path.join(work, mod + ".tla"), "w") as f:
+        f.write("---- MODULE %s ----\nEXTENDS FlowControl\nScriptDef == [m \\in Mutators |-> CASE %s]\n====\n" % (mod, arms))
+    with open(os.path.join(work, "T" + mod + ".tla"), "w") as f:
+        f.write("---- MODULE T%s ----\nEXTENDS TraceFlow\nScriptDef == [m \\in Mutators |-> CASE %s]\n====\n" % (mod, arms))
+    return mod
+
+
+def flow_run(work, mod, spec, consts, invariants=(), properties=(), view=None, extra=(), post=None, env=None, timeout=900, workers=8):
+    cfgp = os.path.join(work, "%s_%s.cfg" % (mod, spec))
+    lines = ["SPECIFICATION %s" % spec, "CHECK_DEADLOCK FALSE"]
+    if view:
+        lines.append("VIEW " + view)
+    lines.append("CONSTANTS")
+    for k, v in consts.items():
+        lines.append("  %s = %s" % (k, V.tla_value(v)))
+    lines.append("  Script <- ScriptDef")
+    if invariants:
+        lines.append("INVARIANT " + " ".join(invariants))
+    if properties:
+        lines.append("PROPERTY " + " ".join(properties))
+    if post:
+        lines.append("POSTCONDITION " + post)
+    open(cfgp, "w").write("\n".join(lines) + "\n")
+    meta = os.path.join(work, "tlc-meta-%s-%d" % (mod, os.getpid()))
+    cmd = ["timeout", str(timeout), "java", "-XX:+UseParallelGC", "-Xss64m", "-DTLA-Library=" + V.SPEC,
+           "-cp", V.TLA_JAR + ":/opt/veriftools/tla/CommunityModules-deps.jar", "tlc2.TLC",
+           "-workers", str(workers), "-metadir", meta, "-cleanup", "-noGenerateSpecTE", "-config", cfgp] + list(extra) + [
+           os.path.join(work, mod + ".tla")]
+    e = {"JAVA_TOOL_OPTIONS": ""}
+    if env:
+        e.update(env)
+    rc, out = V.sh(cmd, timeout=timeout + 30, env=e, cwd=work)
+    shutil.rmtree(meta, ignore_errors=True)
+    return rc, out
+
+
+def plan_c19(prop, tier, seed, t0):
+    import re
+    quick = tier == "quick"
+    work = os.path.abspath(os.path.join(V.WORK, prop))
+    shutil.rmtree(work, ignore_errors=True)
+    os.makedirs(work)
+    build_s = V.build_harness()
+    configs = [
+        ("a", ["w1", "w2"], {"m1": [{"op": "inc", "b": 1, "m": 0}, {"op": "dec", "b": 1, "m": 0}], "m2": [{"op": "dec", "b": 1, "m": 1}]}, 1, 1, 1, 1),
+        ("b", ["w1", "w2", "w3"], {"m1": [{"op": "dec", "b": 1, "m": 0}], "m2": [{"op": "dec", "b": 0, "m": 1}]}, 1, 1, 1, 1),
+        ("c", ["w1"], {"m1": [{"op": "dec", "b": 1, "m": 1}, {"op": "inc", "b": 1, "m": 1}, {"op": "dec", "b": 1, "m": 1}]}, 1, 1, 1, 1),
+    ]
+    # e, f: small enough to force EVERY behaviour of the model on the real code (no VIEW: the
+    # history is part of the state, so each terminal state is one complete behaviour)
+    configs.append(("e", ["w1"], {"m1": [{"op": "dec", "b": 1, "m": 1}]}, 1, 1, 1, 1))
+    if not quick:
+        configs.append(("g", ["w1"], {"m1": [{"op": "dec", "b": 1, "m": 0}], "m2": [{"op": "dec", "b": 0, "m": 1}]}, 1, 1, 1, 1))
+        configs.append(("d", ["w1", "w2"], {"m1": [{"op": "dec", "b": 1, "m": 0}, {"op": "inc", "b": 1, "m": 0}, {"op": "dec", "b": 1, "m": 0}],
+                                            "m2": [{"op": "dec", "b": 0, "m": 1}, {"op": "inc", "b": 0, "m": 1}, {"op": "dec", "b": 0, "m": 1}]}, 1, 1, 1, 1))
+    violations = []
+    total = {"generated": 0, "distinct": 0}
+    traces = []
+    n_sched = 0
+    results = []
+    samples = []
+    for (name, waiters, scripts, maxb, maxm, initb, initm) in configs:
+        mod = flow_module(work, name, waiters, scripts)
+        consts = dict(Waiters=set(waiters), Mutators=set(scripts.keys()), MaxBytes=maxb, MaxMsgs=maxm, InitBytes=initb, InitMsgs=initm,
+                      NotifiedAfterCheck=False, NotifyOneInsteadOfWaiters=False)
+        # 1. exhaustive model check (safety + liveness) and one history per terminal state
+        all_behaviours = name in ("e", "f", "g")
+        rc, out = flow_run(work, mod, "Spec", consts, invariants=["TypeOK", "C19_NoMiss", "C19_Sound", "EmitSched"],
+                           properties=[] if all_behaviours else ["C19_AllWoken"], view=None if all_behaviours else "View")
+        st = V.parse_mc(out)
+        if not st:
+            raise V.ToolError("TLC failed on FlowControl config %s:\n%s" % (name, out[-2000:]))
+        total["generated"] += st["generated"]
+        total["distinct"] += st["distinct"]
+        if "No error has been found" not in out:
+            m = re.search(r"Error: (.*)", out)
+            path = V.save_replay(prop, 0, {"kind": "model", "config": name, "error": m.group(1) if m else "?", "tlc_output_tail": out[-5000:]})
+            violations.append(("model FlowControl %s: %s" % (name, m.group(1) if m else "error"), path))
+        scheds = []
+        for line in out.splitlines():
+            mm = re.match(r'^<<"SCHED", "(.*)">>$', line.strip())
+            if mm:
+                scheds.append(json.loads(json.loads('"' + mm.group(1) + '"')))
+        # 2. random walks of the model (every behaviour is a schedule)
+        rc2, out2 = flow_run(work, mod, "Spec", consts, invariants=["EmitSched"], workers=1,
+                             extra=["-simulate", "num=%d" % (300 if quick else 5000), "-depth", "80", "-seed", str(seed)], timeout=300)
+        for line in out2.splitlines():
+            mm = re.match(r'^<<"SCHED", "(.*)">>$', line.strip())
+            if mm:
+                scheds.append(json.loads(json.loads('"' + mm.group(1) + '"')))
+        uniq = sorted({json.dumps(s) for s in scheds})
+        if len(uniq) > 20000:
+            import random as _r
+            _r.Random(seed).shuffle(uniq)
+            uniq = uniq[:20000]
+        if not uniq:
+            raise V.ToolError("no schedules from FlowControl config " + name)
+        jobs = []
+        for i, s in enumerate(uniq):
+            jobs.append({"id": "c19-%s-%d" % (name, i), "waiters": waiters, "mutators": scripts, "max_bytes": maxb, "max_msgs": maxm,
+                         "init_bytes": initb, "init_msgs": initm, "steps": json.loads(s)})
+        jobs.append({"id": "c19-%s-free" % name, "waiters": waiters, "mutators": scripts, "max_bytes": maxb, "max_msgs": maxm,
+                     "init_bytes": initb, "init_msgs": initm, "free": True, "rounds": 300 if quick else 20000})
+        n_sched += len(jobs)
+        samples.append(jobs[len(jobs) // 2])
+        sp = os.path.join(work, "sched_%s.ndjson" % name)
+        V.write_scenarios(sp, jobs)
+        rc3, out3 = V.sh([V.DVH, "flow", sp, "--out", os.path.join(work, "flow_" + name)], timeout=1200)
+        if rc3 != 0:
+            raise V.ToolError("dvh flow failed: " + out3[-2000:])
+        tr = os.path.join(work, "flow_%s.0.ndjson" % name)
+        traces.append(tr)
+        # 3. validation with the same constants
+        rc4, out4 = flow_run(work, "T" + mod, "TraceSpec", consts, invariants=["Summary"], post="TraceAccepted", workers=1, env={"TRACE": tr})
+        res = {"trace": tr, "viol": [], "drift": [], "summary": None, "stuck": None, "error": None, "events": 0}
+        for line in out4.splitlines():
+            mm = V.LINE_RE.match(line.strip())
+            if not mm:
+                continue
+            payload = json.loads(json.loads('"' + mm.group(2) + '"'))
+            if mm.group(1) == "VIOL":
+                res["viol"].append(payload)
+            elif mm.group(1) == "DRIFT":
+                res["drift"].append(payload)
+            elif mm.group(1) == "SUMMARY":
+                res["summary"] = payload
+            elif mm.group(1) == "STUCK":
+                res["stuck"] = payload
+        if "No error has been found" not in out4:
+            res["error"] = "TLC: " + out4[-1200:]
+        results.append(res)
+        # vacuity control (thorough, or config a in quick): the design mutations must be rejected
+        if name == "a":
+            for sw in ("NotifiedAfterCheck", "NotifyOneInsteadOfWaiters"):
+                c2 = dict(consts)
+                c2[sw] = True
+                rc5, out5 = flow_run(work, mod, "Spec", c2, invariants=["C19_NoMiss"], view="View")
+                if "Invariant C19_NoMiss is violated" not in out5:
+                    raise V.ToolError("vacuity: FlowControl with %s=TRUE satisfies C19_NoMiss" % sw)
+    n = len(violations)
+    accepted = sum((r["summary"] or {}).get("ok", 0) for r in results)
+    steps = sum((r["summary"] or {}).get("steps", 0) for r in results)
+    drift = sum(len(r["drift"]) for r in results)
+    tool_errors = [r["error"] for r in results if r["error"]]
+    for r in results:
+        for v in r["viol"]:
+            if prop in v.get("props", []):
+                n += 1
+                path = V.save_replay(prop, n, {"kind": "flow", "violation": v, "trace_file": r["trace"],
+                                               "history": V.history_of(r["trace"], v.get("run"))})
+                violations.append(("flow schedule %s" % v.get("run"), path))
+    coverage = {"states": total["distinct"], "transitions": total["generated"], "traces_validated_against_impl": accepted,
+                "samples": samples[:2], "evaluations": n_sched, "distinct_nontrivial": n_sched - len(configs),
+                "rule": "one evaluation = one TLC behaviour of FlowControl.tla forced on the real FlowControl by the thread-per-process scheduler "
+                        "(sync points before every atomic access), or one free-running stress job; distinct by step sequence; non-trivial = forced schedule",
+                "model_steps_replayed_on_real_code": steps, "schedules_where_code_left_the_model(drift)": drift,
+                "build_s": round(build_s, 1), "exhaustive": False}
+    wall = time.time() - t0
+    V.write_evidence(prop, tier, seed, "model_checking", coverage,
+                     V_ASSUME("memory-ordering effects below statement granularity are outside the model (one thread runs at a time in forced schedules)"),
+                     wall, len(violations))
+    if tool_errors and not violations:
+        raise V.ToolError("; ".join(tool_errors)[:2000])
+    if violations:
+        for what, path in violations[:10]:
+            print("VIOLATION property=%s replay=%s" % (prop, path))
+            V.log("  ", what)
+        return 1
+    print("OK property=%s tier=%s schedules=%d accepted=%d steps=%d drift=%d states=%d wall=%.1fs"
+          % (prop, tier, n_sched, accepted, steps, drift, total["distinct"], wall))
+    return 0
+
+
 PLANS = {
     "C01": plan_c01, "C02": plan_c02, "C03": plan_c03, "C04": plan_c04, "C05": plan_c05,
     "C08": plan_c08, "C09": plan_c09, "C10": plan_c10, "C11": plan_c11, "C13": plan_c13, "C15": plan_c15,
-    "C12": plan_c12, "C07": plan_c07, "C06": plan_c06, "C16": plan_c16, "C18": plan_c18,
+    "C12": plan_c12, "C07": plan_c07, "C06": plan_c06, "C16": plan_c16, "C18": plan_c18, "C19": plan_c19,
 }
